@@ -401,6 +401,22 @@ theorem lanczos_first_vector (hs : SqrtLaw ops) (hA : SelfAdj amul) (maxIter : N
     simp only [show ¬ min maxIter n = 0 by omega, if_false, hg, if_true, hc]
     rfl
 
+/-- PREVIOUS re-orthogonalisation test (before commit 7af42c2, `torch.sum(inner_products > tol)`, `anyGtSigned`): an inner
+product of `−1` against `tol = 1e-5`-like `0` is NOT reported, so no further pass was run and `could_reorthogonalize` was set
+although the new vector was far from orthogonal; the magnitude test of the code as it is now (`anyGt`) reports it. -/
+theorem signedReorthTest_misses_negative_counterexample :
+    ∃ (ops : NumOps Int) (ip : Vector Int 1) (tol : Int),
+      anyGtSigned ops ip tol = false ∧ anyGt ops ip tol = true :=
+  ⟨{ sqrt := id, gt := fun a b => decide (b < a), abs := fun x => if x < 0 then -x else x }, #v[-1], 0, by decide, by decide⟩
+
+/-- The magnitude test subsumes the signed one wherever `abs` does not decrease a value and `>` is monotone in its first
+argument: whatever the previous code sent to another pass, the present code sends too. -/
+theorem signedReorthTest_implies_magnitude {m : Nat} (hmono : ∀ x t : K, ops.gt x t = true → ops.gt (ops.abs x) t = true)
+    (ip : Vector K m) (tol : K) (h : anyGtSigned ops ip tol = true) : anyGt ops ip tol = true := by
+  simp only [anyGtSigned, anyGt, List.any_eq_true] at h ⊢
+  obtain ⟨j, hj, hgt⟩ := h
+  exact ⟨j, hj, hmono _ _ hgt⟩
+
 /-! ### the coupled multi-column loop (`lanczosMulti`: all columns of one call in ONE loop) -/
 
 /-- LIFT of the single-column theorems through the coupled loop.  `C` columns (batch members × init vectors), each with
@@ -520,7 +536,7 @@ theorem generated_jitter :
 
 
 /-- The literals and comparison shapes the model hard-wires are the ones in the working tree:
-`tol = 1e-5`, `range(10)`, `beta_curr.abs() > 1e-6`, `inner_products > tol` (no absolute value), the
+`tol = 1e-5`, `range(10)`, `beta_curr.abs() > 1e-6`, `inner_products.abs() > tol` (magnitude test, since 7af42c2), the
 `k + 1 < num_iter` guard, `num_iter = min(max_iter, n)`, `range(1, num_iter)`, trimming to `k + 1`,
 `evals.ge(0)` / fill value 1, tridiagonal jitter `1e-6`, and the guard of the first step
 (`num_iter > 1 and torch.sum(beta_0.abs() > 1e-6) > 0`, same literal as the break test). -/
@@ -529,7 +545,8 @@ theorem generated_constants :
     Generated.C09.breakTol = 1 / 1000000 ∧ Generated.C09.breakLhs = "beta_curr.abs()" ∧
     Generated.C09.breakOp = "Gt" ∧
     Generated.C09.breakTest = "torch.sum(beta_curr.abs() > 1e-06) == 0 or not could_reorthogonalize" ∧
-    Generated.C09.innerTest = "not torch.sum(inner_products > tol)" ∧ Generated.C09.innerOp = "Gt" ∧
+    Generated.C09.innerTest = "not torch.sum(inner_products.abs() > tol)" ∧
+    Generated.C09.innerLhs = "inner_products.abs()" ∧ Generated.C09.innerOp = "Gt" ∧
     Generated.C09.numIter = "min(max_iter, matrix_shape[-1])" ∧ Generated.C09.loopIter = "range(1, num_iter)" ∧
     Generated.C09.reorthGuard = "k + 1 < num_iter" ∧ Generated.C09.trim = "num_iter = k + 1" ∧
     Generated.C09.mask = "evals.ge(0)" ∧ Generated.C09.maskFill = 1 ∧
@@ -540,9 +557,9 @@ theorem generated_constants :
 /-- The statements before the loop are the ones the model mirrors; in particular the start vector is normalised by its
 plain 2-norm — `init_vecs / torch.norm(init_vecs, 2, dim=-2)`, no eps, no clamp, no rescaling — which is what
 `lanczos_start_scale_invariant` rests on; and nothing between `if init_vecs is None:` and that statement touches supplied
-start vectors (`setup`).  (Second alternative: the two-step normalisation of notes/C09_fix_3.diff — first by the largest
-entry, a positive factor, then by the 2-norm — which is the same `v/‖v‖` by `lanczos_start_scale_invariant` and avoids the
-under/overflow of `‖v‖²`, open finding for float32.) -/
+start vectors (`setup`).  (Second alternative = the code as it is since commit 894ea76 = notes/C09_fix_3.diff: two-step normalisation, first by
+the largest entry — a positive factor — then by the 2-norm; the same `v/‖v‖` by `lanczos_start_scale_invariant`, without the
+under/overflow of `‖v‖²`.  The first alternative is the previous single statement.) -/
 theorem generated_start_normalisation :
     Generated.C09.setup =
       ["if init_vecs is None: init_vecs = torch.randn(matrix_shape[-1], num_init_vecs, dtype=dtype, device=device) init_vecs = init_vecs.expand(*batch_shape, matrix_shape[-1], num_init_vecs) else: if settings.debug.on(): if dtype != init_vecs.dtype: raise RuntimeError('Supplied dtype {} and init_vecs.dtype {} do not agree!'.format(dtype, init_vecs.dtype)) if device != init_vecs.device: raise RuntimeError('Supplied device {} and init_vecs.device {} do not agree!'.format(device, init_vecs.device)) if batch_shape != init_vecs.shape[:-2]: raise RuntimeError('batch_shape {} and init_vecs.shape {} do not agree!'.format(batch_shape, init_vecs.shape)) if matrix_shape[-1] != init_vecs.size(-2): raise RuntimeError('matrix_shape {} and init_vecs.shape {} do not agree!'.format(matrix_shape, init_vecs.shape)) num_init_vecs = init_vecs.size(-1)", "num_iter = min(max_iter, matrix_shape[-1])", "dim_dimension = -2", "if settings.verbose_linalg.on(): settings.verbose_linalg.logger.debug(f'Running Lanczos on a {matrix_shape} matrix with a {init_vecs.shape} RHS for {num_iter} iterations.')", "q_mat = torch.zeros(num_iter, *batch_shape, matrix_shape[-1], num_init_vecs, dtype=dtype, device=device)", "t_mat = torch.zeros(num_iter, num_iter, *batch_shape, num_init_vecs, dtype=dtype, device=device)"] ∧
@@ -581,7 +598,7 @@ theorem generated_loop_skeleton :
        "inner_products = q_mat[:k + 1].mul(r_vec.unsqueeze(0)).sum(dim_dimension)",
        "could_reorthogonalize = False", "q_mat[k + 1].copy_(r_vec)"] ∧
     Generated.C09.extraBody =
-      ["if not torch.sum(inner_products > tol): could_reorthogonalize = True break",
+      ["if not torch.sum(inner_products.abs() > tol): could_reorthogonalize = True break",
        "correction = r_vec.unsqueeze(0).mul(q_mat[:k + 1]).sum(dim_dimension, keepdim=True)",
        "correction = q_mat[:k + 1].mul(correction).sum(0)", "r_vec.sub_(correction)",
        "r_vec_norm = torch.norm(r_vec, 2, dim=dim_dimension, keepdim=True)", "r_vec.div_(r_vec_norm)",
